@@ -45,9 +45,16 @@ T_ErrorIffNoValidAssignment == Ready => ErrorIffNoValidAssignment(sig, call, Res
 T_ReservedOnlyDrops == Ready => LET py == Bind(sig, call, {}, {}) IN
   IF Range(call.kws) \cap Reserved = {} THEN py = Result
   ELSE py.k = "ok" => (Result.k = "ok" /\ Result.pos = py.pos /\ Result.kwd = py.kwd /\ Result.dflt = py.dflt)
-\* all four theorems with the outcome computed once (what the quick and thorough runs check)
+\* the value dimension: a valuation in which defaults, positional and keyword arguments carry falsy values of
+\* several types (the other sources keep their distinct truthy constants)
+W == << <<"d:a", "tuple:()">>, <<"d:value", "str:''">>, <<"d:context", "float:0.0">>, <<"d:d", "bool:False">>,
+        <<"d:qos", "NoneType:None">>, <<"d:g", "int:0">>, <<"p1", "int:0">>, <<"p3", "NoneType:None">>,
+        <<"k:context", "NoneType:None">>, <<"k:qos", "list:[]">>, <<"k:zz", "dict:{}">> >>
+T_ValuesFollowSources == Ready => ValuesFollowSources(sig, Result, W)
+\* all theorems with the outcome computed once (what the quick and thorough runs check)
 T_All == Ready => LET r == Result  py == Bind(sig, call, {}, {}) IN
   /\ EveryParameterBoundExactlyOnce(sig, r) /\ NoExtraNames(sig, call, Reserved, r)
+  /\ ValuesFollowSources(sig, r, W)
   /\ ErrorIffNoValidAssignment(sig, call, Reserved, r)
   /\ IF Range(call.kws) \cap Reserved = {} THEN py = r
      ELSE py.k = "ok" => (r.k = "ok" /\ r.pos = py.pos /\ r.kwd = py.kwd /\ r.dflt = py.dflt)
@@ -71,4 +78,12 @@ ASSUME /\ In(S1, C(0, <<>>)) /\ B0(S1, C(0, <<>>)).k = "TypeError"              
        /\ In(S4, C(1, <<"value">>)) /\ B0(S4, C(1, <<"value">>)).k = "TypeError"                       \* reserved posonly name by keyword: declared, not dropped
        /\ In(S1, C(1, <<"context", "context">>)) /\ B0(S1, C(1, <<"context", "context">>)).k = "TypeError"   \* repeated keyword
        /\ In(S1, C(2, <<"context">>)) /\ B0(S1, C(2, <<"context">>)).k = "TypeError"                   \* multiple values
+\* witnesses of the value dimension: an omitted parameter with a FALSY default receives that value (it is not
+\* "missing"), a falsy argument is an argument (the default is not taken instead)
+ASSUME /\ LET r == B0(S1, C(1, <<"context">>)) IN
+            r.k = "ok" /\ Values(S1, r, W) = <<"int:0", "NoneType:None", "bool:False", "NoneType:None">>
+       /\ LET r == B0(S1, C(3, <<"qos">>)) IN
+            r.k = "ok" /\ Values(S1, r, W) = <<"int:0", "p2", "NoneType:None", "list:[]">> /\ VaValues(r, W) = << >>
+       /\ LET r == B0(S3, C(3, <<>>)) IN r.k = "ok" /\ VaValues(r, W) = <<"p2", "NoneType:None">>
+       /\ LET r == B0(S1, C(1, <<"context">>)) IN Values(S1, r, << >>) = Sources(S1, r)       \* the empty valuation: value tag = source tag
 =============================================================================
